@@ -45,6 +45,17 @@ fn faults() -> Vec<Fault> {
     vec![
         f("undefined-symbol", "lda nope_q", true),
         f("undefined-symbol-data", ".word nope_q + 1", true),
+        // the undefined name in every position an expression can stand in
+        f("undefined-symbol-if", ".if nope_q { nop }", true),
+        f("undefined-symbol-loop", ".loop nope_q { nop }", true),
+        f("undefined-symbol-pc", "* = nope_q", true),
+        f("undefined-symbol-align", ".align nope_q", true),
+        f("undefined-symbol-text", ".text \"{nope_q}\"", true),
+        f("undefined-symbol-modifier", "lda #<nope_q", true),
+        f("undefined-symbol-const", ".const kq_q = nope_q + 1", true),
+        f("undefined-symbol-var", ".var vq_q = nope_q", true),
+        f("undefined-symbol-path", "jmp nope_q.inner", true),
+        g("undefined-symbol-macro-arg", ".macro ma_q(p) { lda #p }\nnop\nma_q(nope_q)", (2, 2)),
         f("undefined-macro", "nomacro_q(1)", true),
         f("undefined-segment", ".segment \"noseg_q\" { nop }", true),
         // the offending construct of a redefinition is the second definition
@@ -446,7 +457,7 @@ pub fn run(ctx: &Ctx, replay: Option<&Value>) -> i32 {
     let _ = std::fs::remove_dir_all(&scratch);
     ctx.finish(
         "fault_enumeration",
-        "20 fault texts of the 11 error classes (undefined symbol/macro/segment, label and constant redefinition, illegal addressing mode, immediate and branch out of range, macro arity, malformed statements, unclosed block) x every statement slot of every valid base program (top level, braces, label blocks, loop bodies, taken if/else branches, invoked macro bodies, segment blocks, import parameter blocks) and every line boundary of the imported file; parse-level faults also in code that is not assembled. In-process: >= 1 diagnostic and one inside the injected construct's lines; real binary (one per class x context in quick, all in thorough): exit status 1, stdout names file:line:col, target directory holds only the two pre-existing files, unmodified. non-trivial = distinct (project text, class, context)",
+        "30 fault texts of the 11 error classes (undefined symbol/macro/segment, label and constant redefinition, illegal addressing mode, immediate and branch out of range, macro arity, malformed statements, unclosed block) x every statement slot of every valid base program (top level, braces, label blocks, loop bodies, taken if/else branches, invoked macro bodies, segment blocks, import parameter blocks) and every line boundary of the imported file; parse-level faults also in code that is not assembled. In-process: >= 1 diagnostic and one inside the injected construct's lines; real binary (one per class x context in quick, all in thorough): exit status 1, stdout names file:line:col, target directory holds only the two pre-existing files, unmodified. non-trivial = distinct (project text, class, context)",
         true,
         &[
             "exactly one fault per program (deviation bound 1)",
